@@ -58,6 +58,8 @@ func dispatch(cmd string, args []string) int {
 		return cmdCheck(args)
 	case "msg":
 		return cmdMsg(args)
+	case "replay":
+		return cmdReplay(args)
 	case "bootstrap":
 		V, err := LoadVerifier(envOr("VERIF_REPO", "/repo"), envOr("VERIF_DIR", "/verif"))
 		if err != nil {
